@@ -546,6 +546,13 @@ func taskScheduleHandler() {
 			}
 			t := e.Value.(*Task) //nolint:forcetypeassert // Can only be *Task.
 
+			// Check if the task is really due. The timer may stem from an entry
+			// that has been removed from the schedule in the meantime.
+			if time.Now().Before(t.executeAt) {
+				scheduleLock.Unlock()
+				continue
+			}
+
 			// process Task
 			if t.overtime {
 				// already queued and maxDelay reached
